@@ -3,6 +3,7 @@ import TxVerif.Tie.PQ
 import TxVerif.Props.C12Writer
 import TxVerif.Props.PQQueueRefine
 import TxVerif.Tie.Fixes
+import TxVerif.Props.PQQueueSpace
 open TxVerif
 #print axioms ack_space_bound
 #print axioms ack_keeps_unacked
@@ -39,3 +40,20 @@ open TxVerif
 #print axioms queue_reader_page_live
 #print axioms Tie.pq_fix_unassignPages
 #print axioms Tie.fix_rollbackChanges
+#print axioms hdr_page_fields
+#print axioms ack_head_ge
+#print axioms layoutFrom_reserve
+#print axioms chain_pages_from
+#print axioms chain_pages_bound
+#print axioms queue_space_inv
+#print axioms queue_space_bound_inv
+#print axioms queue_space_bound
+#print axioms queue_space_bound_crash
+#print axioms queue_space_bound_conc
+#print axioms queue_drained_small
+#print axioms queue_ack_monotone
+#print axioms queue_flush_pages
+#print axioms space_bound_tight
+#print axioms space_small_tight
+#print axioms space_last_acked_needed
+#print axioms space_divisor
